@@ -3,6 +3,7 @@ package main
 // Ghost state: lock sets (O-LOCK), ownership (O-OWN), loops and invariants.
 
 import (
+	"os"
 	"fmt"
 	"go/types"
 	"sort"
@@ -447,6 +448,9 @@ func (x *Exec) loopEffects(fr *Frame, h *ssa.BasicBlock) (allocs map[*ssa.Alloc]
 							}
 						}
 					}
+				}
+				if os.Getenv("GOVC_DEBUG_LOOP") != "" {
+					fmt.Fprintf(os.Stderr, "loop call with effects: %s\n", in.String())
 				}
 				calls = true
 			case *ssa.Defer, *ssa.Go:
